@@ -8,6 +8,7 @@ name, declaring range and children (template arguments, fields; defs of a defset
 (document_symbols_exact).  Tie: Ide model vs implementation.  Oracle: expected outline and folding
 ranges of generated programs, known by construction."""
 import json
+import re
 
 from .. import core, idecorr, semcheck
 
@@ -117,6 +118,26 @@ def order_probes(ck):
                 if not sorted_ok(x["children"]):
                     bad = [(x["name"], x["range"][0])] + [(c["name"], c["range"][0]) for c in x["children"]]
                 todo.extend(x["children"])
+        # "exactly": every declaration is listed once - at the top level or under its defset, not both
+        entries = [(x["range"][0], x["name"], None) for x in syms] + [(c["range"][0], c["name"], x["name"]) for x in syms if x["kind"] == "Defset" for c in x["children"]]
+        pos_seen = {}
+        for pos, name, parent in entries:
+            if pos in pos_seen and not bad:
+                # which blocks enclose the declaration (generated texts have no braces in strings)
+                stack, last = [], None
+                for m in re.finditer(r"\b(multiclass|defset|class|def|let|foreach|if|else)\b|[{}]", t[:pos]):
+                    g = m.group(0)
+                    if g == "{":
+                        stack.append(last)
+                    elif g == "}":
+                        stack and stack.pop()
+                    else:
+                        last = g
+                cause = "def-of-a-multiclass-inside-a-defset" if ("multiclass" in stack and "defset" in stack and stack.index("defset") < len(stack) - 1 - stack[::-1].index("multiclass")) else "other"
+                ck.fail(["C18", "listed-twice", cause], "the declaration %r at offset %d is listed twice (under %s and under %s)" % (name, pos, pos_seen[pos] or "the top level", parent or "the top level"),
+                        {"files": {"/main.td": t}, "root": "/main.td", "detail": {"probe": "order"}}, json.dumps([e for e in entries if e[0] == pos]), "one entry")
+                break
+            pos_seen[pos] = parent
         if bad:
             ck.fail(["C18", "order", core.sig_hash(t)], "outline entries are not in source order: %s" % bad[:8],
                     {"files": {"/main.td": t}, "root": "/main.td", "detail": {"probe": "order"}}, json.dumps(bad)[:300], "ascending positions")
